@@ -30,7 +30,7 @@ Patterns can be
 
 from __future__ import annotations
 
-from fnmatch import fnmatch
+from fnmatch import fnmatchcase
 
 from xknx.exceptions import ConversionError
 
@@ -72,7 +72,8 @@ class AddressFilter:
             isinstance(address, InternalGroupAddress)
             and self.internal_group_address_pattern
         ):
-            return fnmatch(address.raw, self.internal_group_address_pattern)
+            # fnmatch() would fold the case on some platforms (os.path.normcase)
+            return fnmatchcase(address.raw, self.internal_group_address_pattern)
 
         return False
 
@@ -116,9 +117,10 @@ class AddressFilter:
                 self._init_digit(pattern)
             elif "-" in pattern:
                 self._init_range(pattern)
-            self.range_to = self._adjust_range(self.range_to)
-            self.range_from = self._adjust_range(self.range_from)
             self._flip_range_if_necessary()
+            # only the upper end is limited - a range that begins above the
+            # address space stays empty instead of becoming {MAX_FREE}
+            self.range_to = self._adjust_range(self.range_to)
 
         def _init_wildcard(self) -> None:
             self.range_from = 0
@@ -132,7 +134,12 @@ class AddressFilter:
         def _init_range(self, pattern: str) -> None:
             (range_from, range_to) = pattern.split("-")
             self.range_from = int(range_from) if range_from else 0
-            self.range_to = int(range_to) if range_to else GroupAddress.MAX_FREE
+            # an open end never lies below the start ("65536-" is empty, not reversed)
+            self.range_to = (
+                int(range_to)
+                if range_to
+                else max(self.range_from, GroupAddress.MAX_FREE)
+            )
 
         @staticmethod
         def _adjust_range(digit: int) -> int:
